@@ -392,3 +392,35 @@ def nontrivial_damage(case):
         if op[0] == "trunc" and op[2] >= case["pl"]:
             return True
     return False
+
+
+def empty_run_cases(damage):
+    """Fixed shapes (independent of the seed): runs of 1..4 empty files at the start, in the
+    middle and at the end of the listing, for every version and both kinds of metafile; with
+    `damage`, one damage confined to a file listed AFTER the run (or, for a trailing run, to the
+    last non-empty file)."""
+    pl = B
+    cases = []
+    n = 0
+    for version in (1, 2, 3):
+        for k in (1, 2, 3, 4):
+            for where in ("start", "middle", "end"):
+                n += 1
+                data = [("a-data", Blob.rand(900 + n, pl + 77)), ("m-data", Blob.rand(901 + n, 2 * pl + 5)),
+                        ("z-data", Blob.rand(902 + n, 3 * pl - 1))]
+                prefix = {"start": "0-", "middle": "b-", "end": "~-"}[where]
+                empties = [(f"{prefix}empty{i}", Blob.rand(1, 0)) for i in range(k)]
+                files = data + empties
+                source = "own" if (n + k) % 2 else "ref"
+                creator = {1: ["v1"], 2: ["a2", "v2"], 3: ["a3", "hy"]}[version][n % (1 if version == 1 else 2)]
+                case = {"files": [(rel, b.token()) for rel, b in files], "pl": pl, "version": version,
+                        "single": False, "source": source, "creator": creator,
+                        "via_parent": bool(n % 2), "damage": [], "empty_run": [where, k]}
+                if damage:
+                    target = "z-data" if where != "end" else "m-data"
+                    size = len(dict(files)[target])
+                    op = [["flip", target, size - 1], ["trunc", target, size - 1], ["remove", target],
+                          ["flip", target, 0]][(n + k) % 4]
+                    case["damage"] = [op]
+                cases.append(case)
+    return cases
